@@ -5,10 +5,11 @@ import re
 import shutil
 import zlib
 
-from .common import Case, coq_list, coq_N, coq_opt, coq_str, scratch_dir, typed, untyped
+from .common import (Case, coq_bool, coq_json, coq_list, coq_N, coq_opt, coq_str, float_me, scratch_dir, typed,
+                     untyped)
 
 PROP = "C17"
-IMPORTS = "Base View CorrC17"
+IMPORTS = "Base Json MD5 Canon Export View CorrC17"
 CASE_TYPE = "case_C17"
 MISMATCHES = "mismatches_C17"
 VIOLATIONS = "violations_C17"
@@ -16,7 +17,7 @@ KNOWN = "known_C17"
 SHARD = 40
 RULE = ("histories over real workspaces: a universe (homogeneous / heterogeneous / nested / textually colliding / "
         "awkward strings: spaces, dots, unicode, empty, '.', '..', the leaf name 'job', separators) of 0..7 initial jobs, "
-        "values that vanish under normpath ('.', '') with two-key format paths, then 1..4 create_linked_view calls (job_ids None / subsets incl. empty / path None, False, format strings with "
+        "key names that are string prefixes of one another with custom specs naming one key next to {{auto}}, values that vanish under normpath ('.', '') with two-key format paths, then 1..4 create_linked_view calls (job_ids None / subsets incl. empty / path None, False, format strings with "
         "{{auto}}, invalid specs / absolute or cwd-relative prefix / two alternating prefixes) interleaved with add, remove "
         "and re-key of jobs.  Every create_linked_view call is one case: world snapshot before, the call, snapshot after, "
         "the same call again (mutating syscalls counted), and a from-scratch build under a fresh sibling prefix; the model "
@@ -72,7 +73,7 @@ def rand_scalar(rng, evil):
 def gen_universe(rng):
     """Returns (name, list of state points)."""
     kind = rng.choice(["homog", "homog", "homog2", "hetero", "nested", "collide", "jobkey", "single", "empty",
-                       "vanish", "vanish"])
+                       "vanish", "vanish", "prefixkeys", "prefixkeys"])
     evil = rng.choice([0.0, 0.0, 0.04, 0.12])
     n = rng.choice([0, 1, 2, 2, 3, 3, 4, 5, 7])
     sps = []
@@ -117,11 +118,61 @@ def gen_universe(rng):
     elif kind in ("single", "empty"):
         for _ in range(n):
             sps.append({rng.choice(KEYS): rand_scalar(rng, evil)})
+    elif kind == "prefixkeys":
+        # key names that are string prefixes of one another (a / ab / a_b / alpha, nested a.b vs ab): the keys
+        # named in a custom spec must be excluded from {{auto}} by exact name only
+        stem, longer = rng.choice(PREFIX_KEYS)
+        others = rng.sample(longer, rng.randint(1, min(2, len(longer))))
+        extra = ["z"] if rng.random() < 0.5 else []
+        grid = rng.random() < 0.4
+        vals = [1, 2, 3, "x", "x y", 10, 0.5]
+        if grid:
+            va, vb = rng.sample(vals, 2), rng.sample(vals, 2)
+            for x in va:
+                for y in vb:
+                    sp = {}
+                    set_dotted(sp, stem, x)
+                    set_dotted(sp, others[0], y)
+                    sps.append(sp)
+        else:
+            for i in range(max(n, 2)):
+                sp = {}
+                set_dotted(sp, stem, rng.choice(vals) if rng.random() < 0.5 else i)
+                for k in others:
+                    set_dotted(sp, k, rng.choice(vals))
+                for k in extra:
+                    sp[k] = i % 2
+                if rng.random() < 0.5:
+                    sp["const"] = "c"
+                sps.append(sp)
+        return "prefixkeys:" + stem, sps
     elif kind == "vanish":
         # two keys whose values may vanish under normpath: different format-path strings, one link location
         for _ in range(max(n, 2)):
             sps.append({"a": rng.choice(VANISH), "b": rng.choice(VANISH)})
     return kind, sps
+
+
+PREFIX_KEYS = [("a", ["ab", "alpha", "a_b", "abc"]), ("T", ["Tc", "T2"]), ("a.b", ["a.bc", "ab"]), ("ab", ["abc", "a.b"]),
+               ("a", ["a2", "aa"])]
+
+
+def set_dotted(sp, key, v):
+    ks = key.split(".")
+    d = sp
+    for k in ks[:-1]:
+        d = d.setdefault(k, {})
+        if not isinstance(d, dict):
+            return
+    if isinstance(d.get(ks[-1]), dict):
+        return
+    d[ks[-1]] = v
+
+
+def prefix_specs(stem):
+    f = "{" + stem + "}"
+    return ["x/" + f + "/{{auto}}", f + "/{{auto}}", "{{auto}}/" + stem + "_" + f, f + "/{{auto:_}}", "{{auto}}",
+            "s/{job.sp." + stem + "}/{{auto}}", None, f]
 
 
 VANISH = [".", "", "q", "x"]
@@ -135,7 +186,13 @@ def gen_history(rng):
     kind, sps = gen_universe(rng)
     steps = []
     nviews = rng.choice([1, 2, 2, 3, 3, 4])
-    path = rng.choice(VANISH_SPECS if kind == "vanish" else PATH_SPECS)
+    def pick_path():
+        if kind == "vanish":
+            return rng.choice(VANISH_SPECS)
+        if kind.startswith("prefixkeys:"):
+            return rng.choice(prefix_specs(kind.split(":", 1)[1]))
+        return rng.choice(PATH_SPECS)
+    path = pick_path()
     live = len(sps)
     for v in range(nviews):
         if v > 0:
@@ -163,7 +220,7 @@ def gen_history(rng):
                                   "key": rng.choice(KEYS[:3] + [JOB] * (kind == "jobkey")),
                                   "val": typed(rand_scalar(rng, 0.03))})
         if rng.random() < 0.25:
-            path = rng.choice(VANISH_SPECS if kind == "vanish" else PATH_SPECS)
+            path = pick_path()
         r = rng.random()
         if r < 0.6:
             ids = None
@@ -213,6 +270,12 @@ def fixed_histories():
     h("fix-emptyval", [{"a": ""}, {"a": "x"}], [dict(V, path="p/{a}/q"), dict(V, path="p/{a}/q")])
     h("fix-nested-abs", [{"a": {"b": ROOTMARK + "/a/esc"}}, {"a": {"b": "x"}}], [V, V])
     h("fix-nested-sep", [{"a": {"b": "x/y"}}, {"a": {"b": "x"}}], [V, V])
+    VA = dict(V, path="a/{a}/{{auto}}")
+    h("fix-prefixkey-dropped", [{"a": i, "ab": 10 * i, "z": i % 2, "c": "x y"} for i in range(4)], [VA, VA])
+    h("fix-prefixkey-grid", [{"a": a, "alpha": al} for a in (1, 2) for al in ("x", "y")], [VA, dict(V, path="{a}/{{auto:_}}")])
+    h("fix-prefixkey-nested", [{"a": {"b": i}, "ab": 10 * i, "z": i % 2} for i in range(3)],
+      [dict(V, path="n/{a.b}/{{auto}}"), dict(V, path="n/{ab}/{{auto}}")])
+    h("fix-prefixkey-jobsp", [{"T": i, "Tc": i % 2, "T2": "x"} for i in range(4)], [dict(V, path="T/{job.sp.T}/{{auto}}")])
     VS = dict(V, path="v/{a}/{b}")
     base3 = [{"a": "x y", "b": "1.5"}, {"a": "x y", "b": "été"}, {"a": "z", "b": "1.5"}]
     h("fix-vanish-dot", base3 + [{"a": ".", "b": "q"}], [VS, {"op": "add", "sp": typed({"a": "q", "b": "."})}, VS])
@@ -233,6 +296,71 @@ def gen_inputs(tier, rng):
 
 # ------------------------------------------------------------------------------------------------ observation
 HEX32 = re.compile(r"[0-9a-f]{32}")
+
+
+SPEC_TOKEN = re.compile(r"\{\{auto(?::([^{}]*))?\}\}|\{job\.id\}|\{job\.sp\.([^{}]+)\}|\{([^{}]+)\}")
+
+
+def parse_spec(path):
+    """My own generated path specs -> the pathspec of SV.Export (None = not None/False/str)."""
+    if path is None:
+        return "(Some PNone)"
+    if path is False:
+        return "(Some PFalse)"
+    if not isinstance(path, str):
+        return "None"
+    segs, pos = [], 0
+    for m in SPEC_TOKEN.finditer(path):
+        if m.start() > pos:
+            segs.append("(SLit %s)" % coq_str(path[pos:m.start()]))
+        t = m.group(0)
+        if t.startswith("{{auto"):
+            segs.append("(SAuto %s)" % coq_str(m.group(1) or ""))
+        elif t == "{job.id}":
+            segs.append("SJobId")
+        elif m.group(2) is not None:
+            segs.append("(SJobSp %s)" % coq_list([coq_str(k) for k in m.group(2).split(".")], "str"))
+        else:
+            segs.append("(SKey %s)" % coq_list([coq_str(k) for k in m.group(3).split(".")], "str"))
+        pos = m.end()
+    if pos < len(path):
+        segs.append("(SLit %s)" % coq_str(path[pos:]))
+    return "(Some (PFmt %s))" % coq_list(segs, "seg")
+
+
+def library_tables(sps):
+    """repr(float), str(tuple(list)), format(list, '') for every value of the state points: behaviour of the
+    Python library, not of signac."""
+    ftab, text = {}, []
+
+    def walk(v):
+        if isinstance(v, float):
+            ftab[float_me(v)] = repr(v)
+        elif isinstance(v, list):
+            def tup(x):
+                return tuple(tup(y) for y in x) if isinstance(x, list) else x
+            text.append((True, v, str(tup(v))))
+            text.append((False, v, format(v, "")))
+            for x in v:
+                walk(x)
+        elif isinstance(v, dict):
+            for x in v.values():
+                walk(x)
+    for sp in sps:
+        walk(sp)
+    return ("{| o_asc := true; o_frepr := %s; o_text := %s; o_parse := (@nil (str * json)); o_rel := false |}" % (
+        coq_list(["((%d)%%Z, (%d)%%Z, %s)" % (m, e, coq_str(r)) for (m, e), r in sorted(ftab.items())], "(fl * str)"),
+        coq_list(["(%s, %s, %s)" % (coq_bool(k), coq_json(v), coq_str(t)) for k, v, t in text], "(bool * json * str)")))
+
+
+def has_brace(v):
+    if isinstance(v, str):
+        return "{" in v or "}" in v
+    if isinstance(v, list):
+        return any(has_brace(x) for x in v)
+    if isinstance(v, dict):
+        return any(has_brace(k) or has_brace(x) for k, x in v.items())
+    return False
 
 
 class Abbrev:
@@ -438,7 +566,8 @@ def one_view(signac, _make_path_function, root, pdir, live, step, desc, si):
     if job_ids is not None:
         job_ids = list(dict.fromkeys(job_ids))
 
-    # ---- the oracle part of the input: what the shared path function says, on the same job list
+    # ---- the job list.  The real path function is called ONLY for the safety screen below and for the
+    # replay file; the paths the model uses are computed in Coq (SV.Export.path_function) from the state points.
     project = signac.get_project(pdir)
     jobs = list(project) if job_ids is None else [project.open_job(id=i) for i in job_ids]
     pfmake = None
@@ -471,7 +600,7 @@ def one_view(signac, _make_path_function, root, pdir, live, step, desc, si):
                 r = ("Ok", pf(job))
             except Exception as e:   # noqa: BLE001
                 r = ("Err", exn_class(e))
-        jrecs.append({"dir": job.path, "items": items, "pf": r, "id": job.id})
+        jrecs.append({"dir": job.path, "items": items, "pf": r, "id": job.id, "sp": sp})
     allp = [j.path for j in project.find_jobs()]
     for j in jrecs:
         if j["pf"][0] == "Ok":
@@ -542,15 +671,28 @@ def one_view(signac, _make_path_function, root, pdir, live, step, desc, si):
     def coq_hint(h):
         return coq_list([coq_path(ab(x).split(os.sep)) for x in h], "path")
 
+    def absp(v):   # state point with the case directory stripped from absolute strings, ids abbreviated
+        if isinstance(v, str):
+            return ab(v)
+        if isinstance(v, list):
+            return [absp(x) for x in v]
+        if isinstance(v, dict):
+            return {ab(k): absp(x) for k, x in v.items()}
+        return v
+
+    # j_pf / c_pfmake are placeholders: CorrC17.fill_call overwrites them with the paths computed in Coq
     jobs_coq = coq_list([
-        "{| j_dir := %s; j_items := %s; j_pf := %s |}" % (
-            coq_path(rp(j["dir"])), coq_list([coq_str(ab(x)) for x in j["items"]], "str"),
-            ("(Ok %s)" % coq_str(ab(j["pf"][1]))) if j["pf"][0] == "Ok" else ("(Err %s)" % j["pf"][1]))
-        for j in jrecs], "job")
-    call_coq = "{| c_cwd := %s; c_prefix := %s; c_jobs := %s; c_pfmake := %s; c_all := %s |}" % (
-        coq_path(rp(cwd)), coq_path(raw(prefix)), jobs_coq, coq_opt(pfmake),
+        "{| j_dir := %s; j_items := %s; j_pf := (Err EOther) |}" % (
+            coq_path(rp(j["dir"])), coq_list([coq_str(ab(x)) for x in j["items"]], "str"))
+        for j in jrecs], "View.job")
+    call_coq = "{| c_cwd := %s; c_prefix := %s; c_jobs := %s; c_pfmake := None; c_all := %s |}" % (
+        coq_path(rp(cwd)), coq_path(raw(prefix)), jobs_coq,
         coq_list([coq_path(rp(p)) for p in allp], "path"))
-    coq = ("{| k_pre := %s; k_call := %s; k_hint := %s; k_res := %s; k_post := %s; k_hint2 := %s; k_res2 := %s; "
+    sps_abs = [absp(j["sp"]) for j in jrecs]
+    xjobs = coq_list(["{| j_id := %s; j_sp := %s; j_files := (@nil (fpath * fnode)) |}" % (coq_str(ab(j["id"])), coq_json(sp))
+                      for j, sp in zip(jrecs, sps_abs)], "Export.job")
+    in_domain = not (any(has_brace(sp) for sp in sps_abs) or (isinstance(path, str) and has_brace(SPEC_TOKEN.sub("", path))))
+    coq = ("{| k_xjobs := %s; k_xoracle := %s; k_spec := %s; " % (xjobs, library_tables(sps_abs), parse_spec(path))) + ("k_pre := %s; k_call := %s; k_hint := %s; k_res := %s; k_post := %s; k_hint2 := %s; k_res2 := %s; "
            "k_ops2 := %s; k_post2 := %s; k_sprefix := %s; k_hint3 := %s; k_res3 := %s; k_post3 := %s |}" % (
                coq_node(pre, ab), call_coq, coq_hint(hint1), coq_res(res1), coq_node(post, ab), coq_hint(hint2),
                coq_oexn(res2), coq_N(ops2), coq_node(post2, ab), coq_path(raw(sprefix)), coq_hint(hint3),
@@ -575,7 +717,8 @@ def one_view(signac, _make_path_function, root, pdir, live, step, desc, si):
     kinds = ["universe:" + desc["universe"], "path:" + ("None" if path is None else type(path).__name__),
              "result:" + (res1[0] if res1[0] == "Ok" else res1[1]),
              "pre:" + ("existing" if view_of(pre, name) else "fresh"),
-             "sel:" + ("all" if job_ids is None else ("empty" if not job_ids else "subset"))]
+             "sel:" + ("all" if job_ids is None else ("empty" if not job_ids else "subset")),
+             "pf:" + ("computed-in-coq" if in_domain else "OUT-OF-DOMAIN")]
     d = dict(desc)
     d["case_step"] = si
     return Case(coq, d, obs=obs, nontrivial=nontrivial, key=str(zlib.crc32(coq.encode())) + ":" + str(len(coq)),
